@@ -71,6 +71,69 @@ def make_rule(arch, cfg, str_form):
     return r.are_named(objs[0] if len(objs) == 1 and str_form else list(objs))
 
 
+def _construction(case):
+    """Generator: the fluent calls that build the case's architecture and rule, one per step; returns the rule."""
+    from pytestarch import LayeredArchitecture, LayerRule
+
+    layers, kinds, str_form, cfg = case["layers"], case["kinds"], case["str_form"], case["cfg"]
+    arch = LayeredArchitecture()
+    yield
+    for name, ms in layers.items():
+        arch = arch.layer(name)
+        yield
+        if kinds[name] == "named":
+            arch = arch.containing_modules(ms[0] if len(ms) == 1 and str_form else list(ms))
+        else:
+            arch = arch.have_modules_with_names_matching("^(" + "|".join(re.escape(m) for m in ms) + ")$")
+        yield
+    r = LayerRule()
+    yield
+    r = r.based_on(arch)
+    yield
+    r = r.layers_that()
+    yield
+    r = r.are_named(cfg["subject"])
+    yield
+    r = getattr(r, cfg["verb"])()
+    yield
+    if cfg.get("anything"):
+        return r.access_any_layer() if cfg["dir"] == "import" else r.be_accessed_by_any_layer()
+    r = getattr(r, ACC[(cfg["dir"], cfg["exc"])])()
+    yield
+    objs = cfg["objects"]
+    return r.are_named(objs[0] if len(objs) == 1 and str_form else list(objs))
+
+
+def interleaved_cases(cases, schedule, rnd, acc):
+    """Several layered architectures and layer rules under construction at the same time (their builder calls interleaved),
+    then applied: every object must carry exactly what was said to IT.  schedule: list of case indices (None = draw it)."""
+    gens = [_construction(c) for c in cases]
+    rules = [None] * len(cases)
+    live = list(range(len(cases)))
+    drawn = []
+    k = 0
+    try:
+        while live:
+            i = schedule[k] if schedule is not None else rnd.choice(live)
+            k += 1
+            drawn.append(i)
+            try:
+                next(gens[i])
+            except StopIteration as stop:
+                rules[i] = stop.value
+                live.remove(i)
+    except Exception as e:  # noqa: BLE001
+        HUB.case = {"kind": "layer-interleaved", "cases": cases, "schedule": drawn}
+        HUB.violation("C05", f"builder-exception:{type(e).__name__}:interleaved", f"well-formed layer definitions / rules rejected while several were under construction: {e}", {"schedule": drawn})
+        return
+    for i, case in enumerate(cases):
+        ev = build(case["mods"], [tuple(x) for x in case["imps"]])
+        HUB.case = {"kind": "layer-interleaved", "cases": cases, "schedule": drawn, "applied": i}
+        run(rules[i], ev)
+        acc.evaluated()
+    acc.count("layer_rules_built_interleaved", len(cases))
+
+
 def one_case(case, acc):
     mods, imps = case["mods"], [tuple(i) for i in case["imps"]]
     ev = build(mods, imps)
@@ -107,6 +170,7 @@ def many_imports_inside_the_subject_layer(rnd, acc):
 
 def run_shard(spec, acc):
     rnd = random.Random(spec["seed"])
+    prev_case = prev2 = None
     for i in range(spec["n"]):
         if i % 400 == 7:
             many_imports_inside_the_subject_layer(rnd, acc)
@@ -215,6 +279,9 @@ def run_shard(spec, acc):
         cfg = {"verb": verb, "dir": d, "exc": exc, "anything": anything, "subject": subject, "objects": objects}
         case = {"kind": "layer", "mods": mods, "imps": imps, "layers": layers, "kinds": kinds, "cfg": cfg, "str_form": rnd.random() < 0.5}
         one_case(case, acc)
+        if i % 10 == 3 and prev_case is not None:
+            interleaved_cases([prev_case, case] + ([prev2] if prev2 is not None and rnd.random() < 0.4 else []), None, rnd, acc)
+        prev2, prev_case = prev_case, case
         if i % 397 == 0:
             acc.sample(case)
 
@@ -224,6 +291,8 @@ def replay(case, acc):
         from . import c15
 
         return c15.two_architectures_case(case, acc)
+    if case.get("kind") == "layer-interleaved":
+        return interleaved_cases(case["cases"], case["schedule"], None, acc)
     one_case(case, acc)
 
 
@@ -247,6 +316,8 @@ def floors(acc, tier):
         why.append("too few layers with 100+ internal imports")
     if acc.counters["layer_rule_objects_applied_to_two_architectures"] < 20:
         why.append("too few layer rule objects applied to two different architectures")
+    if acc.counters["layer_rules_built_interleaved"] < 200:
+        why.append(f"only {acc.counters['layer_rules_built_interleaved']} layer rules built while others were under construction")
     if acc.counters["c05_judged_nested_layer_lists"] < 200:
         why.append(f"only {acc.counters['c05_judged_nested_layer_lists']} evaluations with a module listed next to its ancestor inside one layer")
     if acc.counters["c05_judged"] < 5000:
